@@ -1,2 +1,3 @@
 pub mod attr;
+pub mod h5;
 pub mod tree;
